@@ -451,6 +451,117 @@ partial def loopMT (lines : Array String) (i : Nat) (m : MT) : IO Nat := do
         | none => IO.println "bad-op"; loopMT lines (i + 1) m
   else return i
 
+/-! ## step mode: the worker advances one lock region per `w`, public calls run in between
+
+The code's lock regions of the worker: a trivial one after each (re)acquisition that follows the start or a wait (loop
+condition only), then one `Op.poll` region per iteration, ending in `lk.unlock()` (a promise was resolved) or atomically
+in `wait_until` (parked). -/
+
+inductive StepPc where
+  | trivial      -- in front of `_mx`: start of the coroutine, or return from `wait_until`
+  | pollNext     -- in front of `_mx`: next region is a full iteration (`Op.poll`)
+  | parked       -- in `wait_until`
+  | free         -- step mode ended: the worker runs freely
+  deriving BEq
+
+structure SM where
+  m : MT := {}
+  pc : StepPc := StepPc.trivial
+
+def smStatus (x : SM) : String :=
+  match x.pc with
+  | StepPc.trivial | StepPc.pollNext => "lock"
+  | _ => match workerWait x.m.s with
+    | some (some d) => s!"parked:{d}"
+    | some none => "parked:max"
+    | none => "gone"
+
+def smLine (x0 x1 : SM) (head : String) : SM × String :=
+  (x1, withEvents (head ++ " w=" ++ smStatus x1) (mtEvents x0.m x1.m))
+
+/-- one lock region of the worker -/
+def smWorker (x : SM) : SM :=
+  match x.pc with
+  | StepPc.trivial => { x with pc := StepPc.pollNext }
+  | StepPc.pollNext =>
+      match step H x.m.s (Op.poll 0 x.m.clock) with
+      | (s1, Res.expired _) => { x with m := { x.m with s := s1 } }
+      | (s1, Res.next (some d)) =>
+          if d ≤ x.m.clock then { x with m := { x.m with s := (step H s1 (Op.wake 0)).1 } }   -- wait_until returns at once
+          else { m := { x.m with s := s1 }, pc := StepPc.parked }
+      | (s1, _) => { m := { x.m with s := s1 }, pc := StepPc.parked }
+  | _ => x
+
+def smOp (x : SM) (ws : List String) : Option (SM × String) :=
+  let nat (i : Nat) : Nat := (natArg ws i).getD 0
+  if x.pc == StepPc.free then
+    -- free running: as in thread mode
+    match ws with
+    | ["w"] => some (smLine x x "w")
+    | ["free"] => some (smLine x x "free")
+    | _ =>
+      match mtOp x.m ws with
+      | some (m1, out) =>
+          let (head, evs) := match out.splitOn " ; " with
+            | [h] => (h, "")
+            | h :: rest => (h, " ; " ++ " ; ".intercalate rest)
+            | [] => ("", "")
+          some ({ x with m := m1 }, head ++ " w=" ++ smStatus { x with m := m1 } ++ evs)
+      | none => none
+  else
+    match ws with
+    | "sleep" :: _ | "sched" :: _ =>
+        match step H x.m.s (Op.schedule (nat 1) (nat 2)) with
+        | (s1, Res.scheduled k ntf) =>
+            let pc := if x.pc == StepPc.parked && ntf then StepPc.trivial else x.pc
+            some (smLine x { m := { x.m with s := s1 }, pc := pc } s!"sleep#{k} ntf={boolStr ntf}")
+        | (s1, _) => some ({ x with m := { x.m with s := s1 } }, "bad-op")
+    | ["cancel", _] | ["cancelx", _, _] =>
+        match step H x.m.s (Op.cancel (nat 1) (nat 2)) with
+        | (s1, Res.flag b) => some (smLine x { x with m := { x.m with s := s1 } } s!"cancel {boolStr b}")
+        | (s1, _) => some ({ x with m := { x.m with s := s1 } }, "bad-op")
+    | "remove" :: _ =>
+        match step H x.m.s (Op.remove (nat 1)) with
+        | (s1, Res.removed r) => some (smLine x { x with m := { x.m with s := s1 } } s!"remove {boolStr r.isSome}")
+        | (s1, _) => some ({ x with m := { x.m with s := s1 } }, "bad-op")
+    | ["dump"] => some (smLine x x ("dump " ++ dumpStr x.m.s.heap))
+    | ["w"] => some (smLine x (smWorker x) "w")
+    | "adv" :: _ =>
+        let clock := max x.m.clock (nat 1)
+        let x1 : SM := { x with m := { x.m with clock := clock } }
+        let x2 : SM := match x1.pc, workerWait x1.m.s with
+          | StepPc.parked, some (some d) =>
+              if d ≤ clock then { m := { x1.m with s := (step H x1.m.s (Op.wake 0)).1 }, pc := StepPc.trivial } else x1
+          | _, _ => x1
+        some (smLine { x with m := { x.m with clock := clock } } x2 "adv")
+    | ["free"] =>
+        let m1 := settle x.m (settleFuel x.m)
+        some (smLine x { m := m1, pc := StepPc.free } "free")
+    | _ => none
+
+partial def loopSM (lines : Array String) (i : Nat) (x : SM) : IO Nat := do
+  if h : i < lines.size then
+    let ws := words lines[i]
+    let finish : List String :=
+      let m1 : MT := { x.m with s := (step H x.m.s Op.destroy).1 }
+      mtEvents x.m m1
+    match ws with
+    | ["end"] =>
+        IO.println (withEvents "end" finish)
+        return i + 1
+    | ["destroy"] =>
+        IO.println (withEvents "destroy" finish)
+        IO.println "end"
+        let mut j := i + 1
+        while j < lines.size && words lines[j]! != ["end"] do j := j + 1
+        return j + 1
+    | [] => loopSM lines (i + 1) x
+    | _ =>
+        match smOp x ws with
+        | some (x1, out) => IO.println (check x1.m.s out); loopSM lines (i + 1) x1
+        | none => IO.println "bad-op"; loopSM lines (i + 1) x
+  else return i
+
 /-! ## stop race: `~scheduler()` while the worker is between its stop check and its wait (thread mode) -/
 
 /-- the schedule the harness forces; steps that are not enabled are skipped -/
@@ -488,6 +599,10 @@ partial def loop (lines : Array String) (i : Nat) : IO Unit := do
         -- the worker starts and parks itself on an empty vector
         let m0 : MT := {}
         let j ← loopMT lines (i + 1) (settle m0 4)
+        loop lines j
+    | "case" :: id :: "thrstep" :: _ | "case" :: id :: "poolstep" :: _ =>
+        IO.println s!"case {id}"
+        let j ← loopSM lines (i + 1) {}
         loop lines j
     | "case" :: id :: "stoprace" :: rest =>
         IO.println s!"case {id}"
